@@ -12,7 +12,7 @@ from .wire_rules import impl_pairs, SCHEMA_TYPES
 WS = "savefile::WithSchema"
 
 
-@rule("W10", ["C12"], floor=20, doc="in every `possible_recursion::<X>(|c| Y::schema(..))` the guarded type X is the type Y whose schema is "
+@rule("W10", ["C12"], floor=16, doc="in every `possible_recursion::<X>(|c| Y::schema(..))` the guarded type X is the type Y whose schema is "
       "computed (otherwise non-recursive types yield recursion markers)")
 def w10(facts, tier):
     seen = {}
